@@ -14,6 +14,7 @@ import (
 	"io/ioutil"
 	"os"
 	"runtime"
+	"runtime/debug"
 	"time"
 )
 
@@ -196,6 +197,12 @@ func Depth() int {
 	var pcs [4096]uintptr
 	return runtime.Callers(0, pcs[:])
 }
+
+// StackLimit declares that the code run by the harness from here on needs at most n frames of call
+// stack: under the executor a deeper call is reported as a stack overflow (unbounded recursion
+// cannot be followed to its end symbolically). Natively the goroutine stack limit is lowered so
+// that a runaway recursion ends in Go's fatal "stack overflow" within milliseconds.
+func StackLimit(n int) { debug.SetMaxStack(n * 4096) }
 
 // AdvanceClock lets n seconds of the executor's concrete clock pass; natively it sleeps n*10ms
 // (harnesses scale their time-outs accordingly, see Unit).
